@@ -80,7 +80,9 @@ func (r *Runtime) LoadLuaUnit(unit *code.Unit, env Value) *Closure {
 		case code.Float:
 			constants[i] = FloatValue(float64(k))
 		case code.String:
-			// The strings are already accounted for memory-wise
+			// The constant lives as long as the code does: what was required
+			// while compiling is given back when compilation is over.
+			r.RequireBytes(len(k))
 			constants[i] = StringValue(string(k))
 		case code.Bool:
 			constants[i] = BoolValue(bool(k))
